@@ -3,7 +3,7 @@ From Coq Require Import List NArith ZArith Bool.
 Import ListNotations.
 From PF Require Import Opcodes RefTable Config Sim Witness.
 From PF.gen Require SrcOpcodes SrcCanEmit.
-Require Import PF.SrcEquiv.
+Require Import PF.SrcEqOpcodes PF.SrcEqCanEmit.
 
 (* (i) No precondition is unsatisfiable.  For the guard function can_emit and the protocol rows
    REGENERATED FROM THE CURRENT SOURCE on this run (gen/SrcCanEmit.v, gen/SrcOpcodes.v), for every
